@@ -82,6 +82,45 @@ def st_panic(ex, callee, args, st):
     return [("panic", None, "panic: " + callee, st)]
 
 
+def _opt_split(ex, v, st):
+    """-> [(is_some: bool, payload, state)] for an Option value (concrete or symbolic)"""
+    v = ex.deref(v, st)
+    if isinstance(v, Adt):
+        if v.variant == "Some":
+            f = v.fields[0]
+            return [(True, f[1] if isinstance(f, tuple) else f, st)]
+        return [(False, None, st)]
+    if isinstance(v, Sym):
+        t = v.tag()
+        out = []
+        for k, some in ((0, False), (1, True)):
+            st2 = ex._assume_switch(st, t, str(k), [])
+            if st2 is not None:
+                out.append((some, v.child("Some", 0) if some else None, st2))
+        return out
+    raise Unsupported(f"Option operation on {v!r}")
+
+
+def st_opt_expect(ex, callee, args, st):
+    res = []
+    for some, payload, st2 in _opt_split(ex, args[0], st):
+        if some:
+            res.append(("return", payload, None, st2))
+        else:
+            res.append(("panic", None, "panic: " + symex.strip_generics(callee) + " on None", st2))
+    return res
+
+
+def st_opt_is(which):
+    def h(ex, callee, args, st):
+        return [("return", S("bool", "true" if some == which else "false"), None, st2) for some, _, st2 in _opt_split(ex, args[0], st)]
+    return h
+
+
+def st_opt_unwrap_or(ex, callee, args, st):
+    return [("return", payload if some else args[1], None, st2) for some, payload, st2 in _opt_split(ex, args[0], st)]
+
+
 def st_try_branch(ex, callee, args, st):
     v = ex.deref(args[0], st)
     if isinstance(v, Adt) and v.variant in ("Ok", "Some"):
@@ -99,6 +138,10 @@ def st_from_residual(ex, callee, args, st):
 
 
 STATE_INTRINSICS = {
+    r"Option::<.*>::(expect|unwrap)$": st_opt_expect,
+    r"Option::<.*>::is_some$": st_opt_is(True),
+    r"Option::<.*>::is_none$": st_opt_is(False),
+    r"Option::<.*>::unwrap_or$": st_opt_unwrap_or,
     r"as (std::ops::)?Try>::branch$": st_try_branch,
     r"as (std::ops::)?FromResidual<.*>>::from_residual$": st_from_residual,
     r"^<std::boxed::Box<.*> as (std::convert::)?AsRef<.*>>::as_ref$": st_clone,
@@ -114,6 +157,33 @@ STATE_INTRINSICS = {
     r"core::panicking::": st_panic,
     r"unreachable_display|panic_fmt|panic_explicit|unwrap_failed|expect_failed": st_panic,
 }
+
+
+def short(callee):
+    c = symex.strip_generics(callee)
+    c = re.sub(r"<impl at [^>]*>::", "", c)
+    return "::".join(c.split("::")[-2:]) if "::" in c else c
+
+
+def slice_opaque(ex, callee, args, st):
+    """Un-modelled call inside a slice: an event `(callee, shown args)` and an arbitrary result of the destination type."""
+    if getattr(ex, "diverging", False):
+        return [("panic", None, "diverging call " + callee, st)]
+    st2 = st.fork()
+    t = (ex.dest_type or "").strip()
+    ex.sym_counter += 1
+    nm = f"ev{ex.sym_counter}"
+    st2.events.append((short(callee), tuple(show(a, ex, st) for a in args), nm))
+    if t == "bool":
+        v = ex.enc.bool_var(nm)
+    elif t in ("()", ""):
+        v = Unit()
+    else:
+        try:
+            v = ex.sym_value(t, nm)
+        except Unsupported:
+            v = Opaque(nm)
+    return [("return", v, None, st2)]
 
 
 def make_executor(program, types, enc=None, max_paths=200000):
